@@ -74,6 +74,28 @@ func validExt(start, sum uint64) []byte {
 	return b[:]
 }
 
+// rehomeBatch re-slices Data and Extensions of every entry out of one shared buffer, in order.
+func rehomeBatch(logs []*raft.Log) {
+	n := 0
+	for _, l := range logs {
+		n += len(l.Data) + len(l.Extensions)
+	}
+	buf := make([]byte, 0, n)
+	type span struct{ a, b, c int }
+	var sp []span
+	for _, l := range logs {
+		a := len(buf)
+		buf = append(buf, l.Data...)
+		b := len(buf)
+		buf = append(buf, l.Extensions...)
+		sp = append(sp, span{a, b, len(buf)})
+	}
+	for i, l := range logs {
+		l.Data = buf[sp[i].a:sp[i].b]
+		l.Extensions = buf[sp[i].b:sp[i].c]
+	}
+}
+
 // TwinResult is what one sequence produced.
 type TwinResult struct {
 	Viol        []Violation
@@ -158,6 +180,10 @@ func RunTwin(ops []TOp, cfg Config) *TwinResult {
 					l1 = append(l1, l)
 					l2 = append(l2, cloneLog(l))
 				}
+				// what the middleware is handed looks like a batch decoded without copying: Data and Extensions of
+				// all entries are consecutive slices of one buffer, so every field (an empty Extensions too) has
+				// spare capacity that runs into the bytes of the fields after it
+				rehomeBatch(l1)
 				if op.Fail && !refuse {
 					fs.fail = true
 					first := make([]*raft.Log, len(l1))
